@@ -92,10 +92,11 @@ def build(cfg, trace=trace_plain, init_shift=0.0, chains=None):
         kw["stager"] = mici.stagers.WarmUpStager()
     elif cfg["stages"] == "noadapt2":
         n_warm, kw["adapters"] = cfg["n_iter"], []
-    else:  # windowed with a variance adapter
+    else:  # windowed with a variance (or dense covariance) metric adapter
         n_warm = 4
-        kw["adapters"] = [mici.adapters.DualAveragingStepSizeAdapter(),
-                          mici.adapters.OnlineVarianceMetricAdapter()]
+        metric_adapter = mici.adapters.OnlineCovarianceMetricAdapter() \
+            if cfg["stages"] == "windowed_cov" else mici.adapters.OnlineVarianceMetricAdapter()
+        kw["adapters"] = [mici.adapters.DualAveragingStepSizeAdapter(), metric_adapter]
         kw["stager"] = mici.stagers.WindowedWarmUpStager(2, 1, 1, 2.0)
     return sampler, inits, n_warm, kw
 
@@ -348,10 +349,52 @@ def check_streams(cfg, acc):
         return orig(*a, **k)
 
     ms._sample_chain = wrapped  # noqa: SLF001
+    # ownership: generator i belongs to chain i - also OUTSIDE the chain loop, where the metric
+    # adapters draw fresh momenta for the chain states (sequential runs; the generators are the
+    # parent's own objects there)
+    foreign = []
+    orig_rngs = ms._get_per_chain_rngs  # noqa: SLF001
+
+    class OwnedGen(RecordingGen):
+        pass
+
+    def owned_rngs(base, n):
+        out = []
+        for i, g in enumerate(orig_rngs(base, n)):
+            o = OwnedGen(g, [])
+            o.__dict__["owner"] = i
+            out.append(o)
+        return out
+
+    if cfg["n_process"] == 1:
+        ms._get_per_chain_rngs = owned_rngs  # noqa: SLF001
+        import mici.systems as msys
+        orig_sm = msys.EuclideanMetricSystem.sample_momentum
+
+        def sm(self_, state, rng):
+            owner = getattr(rng, "owner", None)
+            if owner is None and hasattr(rng, "_gen"):
+                owner = getattr(rng._gen, "owner", None)  # noqa: SLF001
+            cid = getattr(state, "cid", None)
+            if owner is not None and cid is not None and int(cid) != int(owner):
+                foreign.append((int(cid), int(owner)))
+            return orig_sm(self_, state, rng)
+
+        msys.EuclideanMetricSystem.sample_momentum = sm
     try:
         acc.count("evaluations")
         if cfg["n_process"] == 1:
-            run_sampler(cfg, 1)
+            try:
+                run_sampler(cfg, 1)
+            finally:
+                ms._get_per_chain_rngs = orig_rngs  # noqa: SLF001
+                msys.EuclideanMetricSystem.sample_momentum = orig_sm
+            if foreign:
+                acc.violation(driver="streams", config=cfg,
+                              fields={**F, "what": "momentum_of_a_chain_drawn_from_another_chains_generator"},
+                              kind="stream_reuse", observed=foreign[:6],
+                              expected="chain i is driven by generator i only")
+                return
         else:
             from mc.explore_choice import Ctx
             status, val, sched = run_schedule(Ctx([]), lambda: run_sampler(cfg, cfg["n_process"]))
@@ -433,7 +476,7 @@ def configs(tier, seed):
                 cfgs.append({"mode": "chain_count", "stages": stages, "n_chain": 3,
                              "n_iter": 2, "sampler": sampler, "bitgen": bg, "seed": seed,
                              "init_form": "array"})
-    for stages in ("single", "step", "noadapt2", "windowed"):
+    for stages in ("single", "step", "noadapt2", "windowed", "windowed_cov"):
         for n_process in (1, 2):
             for bg in ("PCG64", "MT19937") if quick else BITGENS:
                 cfgs.append({"mode": "streams", "stages": stages, "n_process": n_process,
